@@ -154,6 +154,18 @@ func GoodF3TwoSided(b []byte, off, end int) []byte {
 	return b[off:end]
 }
 
+// F3 (count form): a prefix cut at a count the packet claims. BadF3Count trusts the count; GoodF3Count compares it first.
+func BadF3Count(fb *rtcp.TransportLayerCC, acks []uint16) []uint16 {
+	return acks[:fb.PacketStatusCount]
+}
+
+func GoodF3Count(fb *rtcp.TransportLayerCC, acks []uint16) []uint16 {
+	if int(fb.PacketStatusCount) > len(acks) {
+		return acks
+	}
+	return acks[:fb.PacketStatusCount]
+}
+
 // ---- F4 -------------------------------------------------------------------------------------------------------
 
 func GoodF4(a interceptor.Attributes, raw []byte) uint16 {
